@@ -44,6 +44,31 @@ type mutant struct {
 	Old  string `json:"old"`
 	New  string `json:"new"`
 	Note string `json:"note"`
+	hook bool
+}
+
+// loadHooks reads the seam rewrites that belong to the shims (shims/<pkg>/hooks.json): text substitutions like
+// a mutant's, but applied in every build. They replace a call the harness cannot make happen (e.g. accepting a
+// QUIC stream) by a call to a hook function defined in the shim file, so that the code AROUND the call is the
+// repository's own, unduplicated. Like every hook they exist in the build overlay only.
+func loadHooks() []mutant {
+	var out []mutant
+	dirs, _ := os.ReadDir(filepath.Join(verifDir(), "shims"))
+	for _, d := range dirs {
+		b, err := os.ReadFile(filepath.Join(verifDir(), "shims", d.Name(), "hooks.json"))
+		if err != nil {
+			continue
+		}
+		var ms []mutant
+		if err := json.Unmarshal(b, &ms); err != nil {
+			die(2, "shims/%s/hooks.json: %v", d.Name(), err)
+		}
+		for i := range ms {
+			ms[i].hook = true
+		}
+		out = append(out, ms...)
+	}
+	return out
 }
 
 func loadMutant(name string) []mutant {
@@ -120,9 +145,15 @@ func build(id string) string {
 		die(2, "%v", err)
 	}
 	overlay := map[string]string{}
-	var muts []mutant
+	muts := loadHooks()
 	if m := os.Getenv("VERIF_MUTANT"); m != "" {
-		muts = loadMutant(m)
+		muts = append(muts, loadMutant(m)...)
+	}
+	kind := func(m mutant) string {
+		if m.hook {
+			return "hook"
+		}
+		return "mutant"
 	}
 	applied := map[int]bool{}
 	mutate := func(path string, src []byte) ([]byte, error) {
@@ -130,7 +161,7 @@ func build(id string) string {
 		for i, m := range muts {
 			if m.File == rel {
 				if !bytes.Contains(src, []byte(m.Old)) {
-					return nil, fmt.Errorf("mutant text not found in %s: %q", rel, m.Old)
+					return nil, fmt.Errorf("%s text not found in %s: %q", kind(m), rel, m.Old)
 				}
 				src = bytes.Replace(src, []byte(m.Old), []byte(m.New), 1)
 				applied[i] = true
@@ -170,7 +201,7 @@ func build(id string) string {
 			order = append(order, p)
 		}
 		if !bytes.Contains(src, []byte(m.Old)) {
-			die(2, "mutant text not found in %s: %q", m.File, m.Old)
+			die(2, "%s text not found in %s: %q", kind(m), m.File, m.Old)
 		}
 		pending[p] = bytes.Replace(src, []byte(m.Old), []byte(m.New), 1)
 	}
